@@ -290,7 +290,18 @@ class C19(Prop):
     def model(self, case: dict, driver: Any) -> Any:
         if case["kind"] == "types":
             return driver.ask({"op": "compat", "rows": case["rows"], "cols": case["cols"]})
-        return None
+        out = {"valid": self._model_construct(driver, case["program"])}
+        out["flawed"] = self._model_construct(driver, case["flawed"]) if case["flawed"] is not None else None
+        return out
+
+    @staticmethod
+    def _model_construct(driver: Any, program: list[dict]) -> str:
+        """The Lean constructor model applied graph by graph in build order: the first rejected graph decides."""
+        for gi in range(len(program)):
+            cls = driver.ask({"op": "build", "program": program, "gi": gi})["class"]
+            if cls != "ok":
+                return cls
+        return "ok"
 
     def compare(self, case: dict, i: Any, m: Any) -> str | None:
         if case["kind"] == "types":
@@ -300,6 +311,11 @@ class C19(Prop):
                         if p != q:
                             return f"is_type_compatible({case['rows'][a]!r}, {case['cols'][b]!r}) = {p}, Lean compat = {q}"
             return None
+        for k in ("valid", "flawed"):
+            if i[k] is None:
+                continue
+            if (i[k] == "ok") != (m[k] == "ok"):
+                return f"{k} graph: constructor {i[k]} vs Lean buildGraph {m[k]}"
         return None
 
     def nontrivial(self, case: dict, obs: Any) -> bool:
